@@ -430,6 +430,45 @@ def check_estimators(run, A):
                           f'{sub!r}: the saliency operand\'s observation index must be shared with every data operand and summed over', construct=f'R-EIN::{q}::weighted-sum')
         # generic sesquilinear rules on every scatter contraction of the estimator (with and without saliency)
         ein_generic = sum(ein.check_generic(run, s) for s in sites if s.parsed and len(s.operands) >= 2)
+        # the scatter reaches the result only THROUGH the division by the mass (sum of the saliency, or the number of observations without saliency): a contraction
+        # that is computed and a mass that is computed do not make an estimator unless the one is divided by the other
+        scat = [s_.term for s_ in sites if s_.parsed and len(s_.operands) >= 2 and any(same_value(a_[0], b_[0]) for i_, a_ in enumerate(ein.operand_info(s_))
+                                                                                        for b_ in ein.operand_info(s_)[i_ + 1:])]
+        if scat:
+            def mass_like(d):
+                for alt in unwrap_gamma(d):
+                    a0 = strip_views(alt)
+                    if a0.op == 'raise' or (a0.op == 'unknown' and a0.args == ('keyerror',)):
+                        continue          # a path that does not continue
+                    if any(is_saliency_term(x) for x in walk_terms(a0, into_mu=False)):
+                        continue
+                    if any(x.op == 'attr' and x.args[1] == 'shape' for x in walk_terms(a0, into_mu=False)) or any(x.op == 'unpack' and strip_views(x.args[0]).op == 'attr'
+                                                                                                                     and strip_views(x.args[0]).args[1] == 'shape' for x in walk_terms(a0, into_mu=False)):
+                        continue
+                    return False
+                return True
+            bare = []
+            seen_ = set()
+            stack = [g.ret] + [e.term for e in g.events if e.kind in ('call',) and e.term is not None and call_parts(e.term)[0] not in ('numpy.einsum', 'numpy.isfinite')]
+            while stack:
+                t_ = stack.pop()
+                if not isinstance(t_, T) or t_.id in seen_:
+                    continue
+                seen_.add(t_.id)
+                if t_.op in ('binop', 'iop') and t_.args[0] == 'Div' and any(x is sc for sc in scat for x in walk_terms(t_.args[1], into_mu=False)) and mass_like(t_.args[2]):
+                    continue          # normalised below this node
+                if any(t_ is sc for sc in scat):
+                    bare.append(t_)
+                    continue
+                for a_ in t_.args:
+                    if isinstance(a_, T):
+                        stack.append(a_)
+                    elif isinstance(a_, tuple):
+                        stack.extend(x for x in a_ if isinstance(x, T))
+                        stack.extend(y for x in a_ if isinstance(x, tuple) for y in x if isinstance(y, T))
+            run.check(not bare, 'R-EIN', f'{short}: the scatter enters the estimate divided by the observation mass', fn.loc(bare[0].node if bare else None), '',
+                      'a scatter contraction reaches the result without the division by the saliency mass / number of observations (the division was dropped or applies to something else)',
+                      construct=f'R-EIN::{q}::normalised-by-mass')
         # normaliser: sum of the same saliency (or N without saliency), applied by division
         if sums:
             for s in sums:
